@@ -9,6 +9,7 @@ import (
 	"runtime"
 	"strings"
 	"sync"
+	"sync/atomic"
 	"testing"
 	"time"
 
@@ -264,8 +265,10 @@ func runDownload(s *dlScript) (*dlResult, error) {
 	}
 	done := make(chan fin, 1)
 	t0 := time.Now()
+	var delivered atomic.Int64
 	go func() {
-		n, err := csync.VerifDownload(ctx, node.NopLogger(), w.n.Conn, w.n.Chain, h.conn.ID(), startB.Header.ID, uint32(s.Start), endID, uint32(s.End), nil)
+		n, err := csync.VerifDownload(ctx, node.NopLogger(), w.n.Conn, w.n.Chain, h.conn.ID(), startB.Header.ID, uint32(s.Start), endID, uint32(s.End),
+			func(n int, b *blockchain.Block, err error) bool { delivered.Add(1); return false })
 		done <- fin{n, err}
 	}()
 	res := &dlResult{}
@@ -302,10 +305,10 @@ func runDownload(s *dlScript) (*dlResult, error) {
 		}
 	}
 	if !res.ended {
+		res.items = int(delivered.Load())
 		cancel() // the harness ends it; the engine's callers never cancel
 		select {
-		case f := <-done:
-			res.items, res.err = f.n, f.err
+		case <-done:
 		case <-time.After(30 * time.Second):
 		}
 	}
@@ -367,7 +370,7 @@ func checkDownload(t dlFailer, s *dlScript, enumerating bool) string {
 		if enumerating {
 			p = evid.R.FailCase("downloader", s)
 		}
-		t.Fatalf("C09 hang: sync.Downloader against a peer that answers every getBlocksFromId with well-formed blocks (script %s) does not terminate: %s. Delivered so far: %d items, no error. The download runs in the consensus goroutine: the node stops processing blocks for as long as the peer keeps answering (only the harness' cancel ended it after %v). Signature %q\nrequest log (%d requests):\n%sscript (replay: VERIF_REPLAY_DOWNLOAD=<file with this JSON>%s): %s",
+		t.Fatalf("C09 hang: sync.Downloader against a peer that answers every getBlocksFromId with well-formed blocks (script %s) does not terminate: %s. Blocks delivered so far: %d, no error. The download runs in the consensus goroutine: the node stops processing blocks for as long as the peer keeps answering (only the harness' cancel ended it after %v). Signature %q\nrequest log (%d requests):\n%sscript (replay: VERIF_REPLAY_DOWNLOAD=<file with this JSON>%s): %s",
 			s.Name, res.verdict, res.items, res.dur.Round(time.Millisecond), sigDownloaderNoProgress, len(res.requests), res.log(), ifs(p != "", " written to "+p, ""), js)
 		return "hang"
 	}
@@ -470,11 +473,29 @@ func TestDownloaderRandomPeer(t *testing.T) {
 	rapid.Check(t, func(t *rapid.T) {
 		s := &dlScript{Name: "random", Rel: true}
 		s.Start = rapid.IntRange(0, worldBlocks).Draw(t, "start")
-		s.End = s.Start + rapid.IntRange(0, 5).Draw(t, "span")
+		s.End = s.Start + rapid.IntRange(0, 6).Draw(t, "span")
 		s.EndFake = rapid.Bool().Draw(t, "endFake")
 		n := rapid.IntRange(1, 4).Draw(t, "answers")
 		for i := 0; i < n; i++ {
-			s.Answers = append(s.Answers, rapid.SliceOfN(rapid.IntRange(-2, 6), 0, 5).Draw(t, fmt.Sprintf("answer%d", i)))
+			var a []int
+			switch rapid.IntRange(0, 7).Draw(t, fmt.Sprintf("shape%d", i)) {
+			case 0, 1: // honest run (progress), so that what follows meets a download that is under way
+				a = seq(1, rapid.IntRange(1, 3).Draw(t, fmt.Sprintf("run%d", i)))
+			case 2:
+				a = []int{0}
+			case 3:
+				a = []int{}
+			case 4: // the requested block first, then successors
+				a = seq(0, rapid.IntRange(1, 3).Draw(t, fmt.Sprintf("incl%d", i)))
+			case 5: // descending
+				k := rapid.IntRange(1, 4).Draw(t, fmt.Sprintf("desc%d", i))
+				for x := k; x >= 1; x-- {
+					a = append(a, x)
+				}
+			default:
+				a = rapid.SliceOfN(rapid.IntRange(-2, 6), 0, 5).Draw(t, fmt.Sprintf("answer%d", i))
+			}
+			s.Answers = append(s.Answers, a)
 		}
 		s.Loop = rapid.IntRange(0, n-1).Draw(t, "loop")
 		checkDownload(t, s, false)
